@@ -2,9 +2,21 @@
 # Regenerates /verif/MANIFEST.json from the table below.
 import json,subprocess
 CHECKS={
+ "C02":("model_checking","explicit-state search over the real server + failing-transaction alphabet",
+   "Breadth-first search over histories of committed transactions on the real in-memory server; from every state every failing transaction (20 failure causes x prefixes of successful operations x suffix) and every rejected alphabet transaction is executed with two recording monitors attached; rows + reference index must be unchanged, no monitor notified, reply shape legal, and six sentinel transactions must behave exactly as on a replay that never saw the failure. Exhaustive within the alphabet and depth.",
+   "Trusted: canonical dump of rows and of GetReferences; the failing alphabet as representative of failure causes; depth 2 (quick) / 3 (thorough).","4 C02"),
+ "C04":("model_checking","explicit-state search over the real server vs executable RFC 7047 reference",
+   "Breadth-first search (states = histories replayed on a fresh real server, deduplicated on rows + reference index) over an alphabet that adds/moves/removes references in every position (scalar, optional, set, map key, map value; strong/weak; root/non-root/self/cycle/chain) on two schemas; after every commit the invariants are recomputed from stored rows only, the rows are compared with the reference model's unique commit fixpoint, commit-time rejections are compared, and every transaction is replayed on a fresh database loaded with exactly the stored rows (history independence).",
+   "Trusted: mc/refmodel (commit fixpoint, self references count), canonicalisation in mc/canon + mc/sys; alphabet of ~70 (quick) transaction templates over a 10-UUID pool, depth 3 / 4.","4 C04"),
  "C05":("model_checking","explicit-state exploration of the real cache",
    "Every valid table content over a small row universe is a state of the real cache.RowCache; every batch (net change between two valid contents) is applied in every row order through ApplyCacheUpdate / Populate2 / Populate / direct calls, chained to depth 2, and after each batch every index and every lookup API is compared with a full scan. Exhaustive within the stated universe; the right level because the property is an invariant over all batches and orders, which is a finite space once rows and values are bounded.",
    "Trusted: the scan oracle (recomputes index keys from the row values), the row universe (6 valuations, 3 rows, 8 index configurations) as representative of index shapes; multi-column keys compared as partitions.","4 C05"),
+ "C06":("model_checking","explicit-state search over the real server vs reference model",
+   "Breadth-first search over histories (inserts, updates, swaps, hand-overs, delete+insert, mutate over all rows, garbage-collected indexed rows) on a schema with indexes [a], [b,c] (optional c), [n] and an indexed non-root table; every transaction is compared with the reference model (final-state duplicate <=> rejected with constraint violation as extra element; transient duplicates accepted), the committed rows are scanned for duplicates, and every accepted multi-operation transaction is additionally committed with every order of its row callbacks, after which the database's own indexes must find every row.",
+   "Trusted: mc/refmodel index rule; depth 2 / 3; up to 3 row callbacks permuted.","4 C06"),
+ "C07":("model_checking","explicit-state search over the real server with recording monitor sinks",
+   "From every explored state every alphabet transaction is executed with 40 (quick) monitors registered through the server's own Monitor/MonitorCond handlers on recording rpc2 codecs: all tables x select-flag sets, table subsets x column subsets, both encodings. The notification exactly as it would go on the wire is decoded and applied, with an oracle written from RFC 7047 / ovsdb-server.7, to the monitored view before the transaction; the result must be the view after it restricted to the selected kinds of change; at most one notification, none for rejected transactions, right method name and id, no unrequested table or column.",
+   "Trusted: the oracle's update/update2 application rules (omitted column = default); empty containers are counted, not flagged; monitor_cond_since is not covered here (the in-tree server never sends update3).","4 C07"),
 }
 PENDING={}
 props=[json.loads(l)["id"] for l in open("/verif/properties.jsonl")]
